@@ -482,8 +482,24 @@ def oracle_inventory(case, by, cells, shifts, flux=None, kstep=1, hist=None, sta
                 k = kstep
                 tref = t - 1
             addc = added(t) - added(tref) if case.get("mcd") and not case.get("implicit") else 0.0
-            if abs(inv - exp - addc) > TOL * max(sc, 1e-300):
-                bad.append((name, t, exp + addc, inv, (inv - exp - addc) / max(sc, 1e-300), k))
+            resid = inv - exp - addc
+            if abs(resid) > TOL * max(sc, 1e-300):
+                # same guard, unbooked part: multi_D zeroes a negative total and books the refill in moles_added (and warns)
+                # only `if (temp < -1e-12)`; a negative total of at most 1e-12 mol is zeroed silently. Fingerprint: explicit
+                # multi_d, mass only ever appears (resid > 0), at most 1e-12 mol per cell and mixrun of the stretch, and a
+                # cell of the column holds (next to) nothing of that element afterwards.
+                mixruns = max(kstep - 1, 1) * (1 if flux is not None else (t - start))
+                # (with an exchanger the zeroed solution total is refilled by the re-equilibration, so the fingerprint is a
+                # cell whose dissolved total of the element is within reach of the silent threshold: <= 1e-11 mol)
+                zeroed = el in gt.ELEMENTS and any(abs(by[t][c][-1].get("m_" + el, 1.0)) <= 1e-11 for c in cells)
+                if case.get("mcd") and not case.get("implicit") and zeroed and 0 < resid <= 1e-12 * len(cells) * mixruns:
+                    GUARD_HITS.append((name, t, exp, inv, addc, "unbooked<=1e-12 mol per cell and mixrun: %.3e" % resid))
+                    if hist is not None:
+                        hist["mcd_guard_unbooked_below_1e-12_mol"] += 1
+                    if flux is not None:
+                        prev = inv
+                    continue
+                bad.append((name, t, exp + addc, inv, resid / max(sc, 1e-300), k))
                 break
             if addc and abs(inv - exp) > TOL * max(sc, 1e-300):
                 # the balance closes only with the moles the engine says it added for negative concentrations
